@@ -4,6 +4,8 @@ import PEval.Properties.C13Tracking
 import PEval.Properties.C13Heap
 import PEval.Lemmas.ManagerAPLink
 import PEval.Properties.C13Scene
+import PEval.Properties.C13Reached
+import PEval.Properties.C13Labels
 /-!
 # C13 — scene scores pool the frame results; frame evaluation is history-independent
 
